@@ -45,7 +45,7 @@ def guard_reasons(p, evs, snap_gen_leaf):
     return reasons
 
 
-def run(ctx, chk):
+def run_rules(ctx, chk):
     fb = ctx.facts()
     chk.explanation = ('G1: every exit of snapshot() that returns the cache without accepting a fresh copy is guarded by one of '
                        '{version==0, generation==0, generation==cached generation, generation odd}; G2: the cached generation is '
@@ -154,3 +154,15 @@ def _was_first(fr, key, first, r):
             if k[0][0] == 'L' and k[0][2] == local and not k[1] and v == first:
                 return True
     return False
+
+
+CONTROLS = [('C03.G1', 'cache-exit:UNGUARDED'), ('C03.G3', 'ok-exit-explored'), ('C03.G4', 'retry:adopts-only-even')]
+
+
+def run(ctx, chk):
+    """the rules on /repo, then the positive controls: the same rules must fire on fixtures/shm_broken"""
+    import sys
+    from .. import core
+    run_rules(ctx, chk)
+    if not getattr(chk, '_is_control', False) and not isinstance(ctx, core.FixtureCtx) and not chk.suffix:
+        core.run_controls(chk, sys.modules[__name__], 'shm_broken', CONTROLS)
